@@ -272,6 +272,8 @@ class Engine:
                 sw = [sw[0]] * n
             elif mode == "many-one":
                 dw = [dw[0]] * n
+            if src == dst and rng.random() < 0.15:
+                dw = list(sw)  # every step returns the liquid to the cavity it came from (mixing in place)
         cs, cd = self.cur(src), self.cur(dst)
         aims, fault = self.pick_aims(n)
         if self.profile.get("all_zero") and rng.random() < self.profile["all_zero"]:
@@ -342,7 +344,7 @@ class Engine:
         dst = rng.choice(list(self.descs))
         dd = self.descs[dst]
         ids = all_well_ids(dd)
-        if dd["kind"] == "trough" and self.device == "fluent":
+        if dd["kind"] == "trough" and self.device == "fluent" and self.profile.get("distinct_positions"):
             seen, u = set(), []
             for w, idx in ids:
                 if idx not in seen:
@@ -351,9 +353,14 @@ class Engine:
             ids = u
         k = max(1, min(rng.choice([1, 2, 3, 5, 8, 12]), len(ids)))
         chosen = rng.sample(ids, k)
+        if not self.profile.get("distinct_positions") and rng.random() < 0.1:
+            chosen.append(rng.choice(chosen))  # a destination well listed twice is charged twice
+            k += 1
         cs, cd = self.cur(src), self.cur(dst)
         avail = cs[(0, col)] - sd["min_volume"]
         rooms = [dd["max_volume"] - cd[idx] for _, idx in chosen]
+        if len({idx for _, idx in chosen}) < len(chosen):
+            rooms = [r / 3 for r in rooms]  # a real well that is hit several times receives the volume several times
         aims, fault = self.pick_aims(1)
         a = aims[0]
         if self.profile.get("all_zero") and rng.random() < self.profile["all_zero"]:
